@@ -72,7 +72,7 @@ def check_tables(model, rep, oracle):
             funcs[name] = ('fn', fn)
     # lower-case module wrappers: resolve `def sin(x): return Sin(x)` style is not needed; Sign is not Pointwise
     funcs['Sign'] = ('fn', 'sign')
-    ofuncs = {k: ('fn', k) for k in ('sin', 'cos', 'tan', 'sinh', 'cosh', 'tanh', 'exp', 'log', 'sign', 'sinc', 'arcsin', 'arccos', 'arctan', 'arctanh')}
+    ofuncs = {k: ('fn', k) for k in ('sin', 'cos', 'tan', 'sinh', 'cosh', 'tanh', 'exp', 'log', 'sign', 'sinc', 'arcsin', 'arccos', 'arctan', 'arctanh', 'expm1', 'log1p', 'arcsinh', 'arccosh')}
     ofuncs['sqrt'] = ('sqrt',)
     ntab = 0
     for c in subs:
@@ -91,7 +91,8 @@ def check_tables(model, rep, oracle):
                f'{c.name}.deriv has {len(entries)} entries for {nd} dependencies: zip() silently drops the derivative with respect to the others', statement='arity')
         want = oracle['derivatives'].get(fn)
         if want is None:
-            rep.ob('R04.1', key, where, False, f'{c.name} emits `{fn}`, for which the calculus oracle has no derivative: cannot confirm its deriv table', statement='oracle-entry')
+            # a function the textbook table does not list (a new operation): its derivative can be neither confirmed nor refuted - not a violation
+            rep.info(f'R04.1 {key} ({where}): {c.name} emits `{fn}`, for which the calculus oracle (oracles/calculus.json) has no derivative: its deriv table is not decided')
             continue
         for i, e in enumerate(entries):
             if i >= len(want):
